@@ -49,12 +49,23 @@ def _cs_arctan2(y, x):
     return np.arctan2(y, x)
 
 
+def _acc_log1p(x):
+    """log1p; for complex arguments NumPy evaluates log|1 + x| (absolute error of one roundoff, i.e. the
+    accuracy log1p exists for is lost near 0), so the modulus is taken from the real log1p:
+    log|1 + a + ib| = log1p(a) + log1p((b / (1 + a))**2) / 2."""
+    if np.iscomplexobj(x):
+        a, b = np.real(x), np.imag(x)
+        if np.all(a > -1.0):
+            return np.log1p(a) + 0.5 * np.log1p((b / (1.0 + a)) ** 2) + 1j * np.arctan2(b, 1.0 + a)
+    return np.log1p(x)
+
+
 PLAIN = {
     'sin': np.sin, 'cos': np.cos, 'tan': np.tan, 'arcsin': np.arcsin, 'asin': np.arcsin,
     'arccos': np.arccos, 'acos': np.arccos, 'arctan': np.arctan, 'atan': np.arctan,
     'sinh': np.sinh, 'cosh': np.cosh, 'tanh': np.tanh, 'arcsinh': np.arcsinh, 'asinh': np.arcsinh,
     'arccosh': np.arccosh, 'acosh': np.arccosh,
-    'exp': np.exp, 'expm1': np.expm1, 'log': np.log, 'log10': np.log10, 'log1p': np.log1p,
+    'exp': np.exp, 'expm1': np.expm1, 'log': np.log, 'log10': np.log10, 'log1p': _acc_log1p,
     'erf': scipy.special.erf, 'erfc': scipy.special.erfc,
     'abs': _cs_abs, 'arctan2': _cs_arctan2, 'power': np.power,
     'maximum': np.maximum, 'minimum': np.minimum, 'fmax': np.fmax, 'fmin': np.fmin,
